@@ -1,22 +1,23 @@
 /-
   C05 — Syntax errors point at the first offending character.
 
-  The verdict `fail at_` stands for `EndOfLine` when `at_ = []` and for `Character(|s| − |at_|)`
-  otherwise.  PARTIAL.  Proved about the reader: the reported position always lies inside the input (the
-  failing remainder is a suffix of the input), `EndOfLine` is reported exactly when the reader stopped at
-  the end of the input, and `Character(i)` always has `i < |s|`.
-  Proved about the documented grammar `Spec.classify` (Purr/Spec/Automaton.lean, Lemmas/AutomatonL.lean):
-  its verdict `Character(i)` is exactly the first offending character — the first `i` characters can be
-  completed to a sentence and the first `i + 1` cannot, whatever follows (`grammar_cursor_first_offending`;
-  every reachable configuration of the automaton has an explicit completion) — and `EndOfLine` is given
-  exactly to viable but incomplete inputs (`grammar_eol_viable_incomplete`).
-  Not yet a theorem: that the reader's verdict and cursor coincide with `Spec.classify` for every string;
-  that is decided on every run (field G of the S-read / S-atom suites: the real reader against `Spec.classify`
-  executed by the Lean driver, on all strings up to a length bound, every token family with its
-  one-character corruptions incl. multi-byte characters) and by the harness's brute-force viability oracle.
+  The verdict `fail at_` stands for `EndOfLine` when `at_ = []` and for `Character(|s| − |at_|)` otherwise.
+
+  `character_is_first_offending`: for EVERY refused string, if the reader reports `Character(i)` then `i` lies
+  inside the string, the first `i` characters can be extended to a string the reader accepts, and no string
+  that begins with the first `i + 1` characters is accepted.  `end_of_line_is_viable_incomplete`: `EndOfLine`
+  is reported exactly when the whole input can be extended to an accepted string but is not accepted itself.
+  Proof: the reader's verdict and cursor coincide with those of the documented grammar automaton
+  (`read_eq_classify`, Purr/Lemmas/GrammarEqL.lean, see C04), and for the automaton the error position is
+  the first character without a move while every reachable configuration has an explicit completion
+  (Purr/Lemmas/AutomatonL.lean).  Cursors count characters (the model's strings are lists of characters, as
+  the scanner of src/read/scanner.rs counts `char`s), so multi-byte characters shift nothing.
+  The real reader's verdict and cursor are additionally compared with the automaton on every run (field G).
 -/
 import Purr.Lemmas.ShapeL
 import Purr.Lemmas.AutomatonL
+import Purr.Lemmas.GrammarEqL
+import Purr.Lemmas.ReaderL
 namespace Purr.C05
 open Purr
 
@@ -52,6 +53,39 @@ theorem verdict_total (s : Str) : (read s).2 = .ok ∨ (∃ a, (read s).2 = .fai
   | ok => exact Or.inl rfl
   | fail a => exact Or.inr ⟨a, rfl, fail_is_suffix s a h⟩
   | panic p => exact absurd h (run_no_panic _ _ _ p)
+
+theorem read_ok_iff (s : Str) : (read s).2 = .ok ↔ Spec.classify s = .ok := by
+  have h := read_eq_classify s
+  constructor
+  · intro hok; rw [hok] at h; exact h.symm
+  · intro hc
+    rw [hc] at h
+    cases hv : (read s).2 with
+    | ok => rfl
+    | fail a => rw [hv] at h; exact absurd h (toSpec_fail_ne_ok _ _)
+    | panic p => exact absurd hv (run_no_panic .needRoot [0] s p)
+
+/-- A `Character(i)` ERROR POINTS AT THE FIRST OFFENDING CHARACTER: everything before it is a prefix of some accepted
+    string, and the prefix including it is a prefix of none. -/
+theorem character_is_first_offending (s a : Str) (c : Char) (r : Str) (h : (read s).2 = .fail a) (ha : a = c :: r) :
+    s.length - a.length < s.length ∧
+    (∃ z, (read (s.take (s.length - a.length) ++ z)).2 = .ok) ∧
+    (∀ z, (read (s.take (s.length - a.length + 1) ++ z)).2 ≠ .ok) := by
+  have heq := read_eq_classify s
+  rw [h] at heq
+  have hcl : Spec.classify s = .character (s.length - a.length) := by
+    rw [← heq]; subst ha; simp [toSpec, failV]
+  obtain ⟨h1, ⟨z, hz⟩, h3⟩ := Spec.character_is_first_offending s _ hcl
+  exact ⟨h1, ⟨z, (read_ok_iff _).mpr hz⟩, fun z' hok => h3 z' ((read_ok_iff _).mp hok)⟩
+
+/-- `EndOfLine` is reported exactly when the whole input is a viable prefix but is incomplete -/
+theorem end_of_line_is_viable_incomplete (s : Str) (h : (read s).2 = .fail []) :
+    (read s).2 ≠ .ok ∧ ∃ z, (read (s ++ z)).2 = .ok := by
+  have heq := read_eq_classify s
+  rw [h] at heq
+  have hcl : Spec.classify s = .endOfLine := by rw [← heq]; rfl
+  obtain ⟨_, z, hz⟩ := Spec.endOfLine_is_viable_incomplete s hcl
+  exact ⟨by rw [h]; simp, z, (read_ok_iff _).mpr hz⟩
 
 /-- the documented grammar's error position is the first character that cannot continue any sentence -/
 theorem grammar_cursor_first_offending (s : Str) (i : Nat) (h : Spec.classify s = .character i) :
